@@ -2280,9 +2280,10 @@ def _contains(token: TokenT, left: object, right: object) -> bool:
     if isinstance(left, Collection):
         try:
             return right in left
-        except TypeError:
+        except (TypeError, ArithmeticError):
             # An unhashable value (a list or a mapping) is never a key of a
-            # mapping or a member of a set.
+            # mapping or a member of a set; comparing with a signalling
+            # decimal NaN raises decimal.InvalidOperation.
             return False
 
     raise LiquidTypeError(
